@@ -391,6 +391,30 @@ func c11Concat(t *vk.T, i int) {
 	me := party.ID("x")
 	msg, sid := r.Bytes(32), r.Bytes(6)
 	sets := [][]party.ID{{"x", "a", "bc"}, {"x", "ab", "c"}}
+	// and two sets that differ only in the last byte of the identifier that sorts last
+	ids2 := []party.ID{"a", "b", "c", "d"}
+	if k2, _, err2 := fx.FrostKeygen(r, ids2, 2, fx.Opt{}); err2 == nil {
+		for _, variant := range []string{"plain", "taproot"} {
+			var outs [][]byte
+			for _, S := range [][]party.ID{{"a", "b", "c"}, {"a", "b", "d"}} {
+				c := &c11Ctx{dims: map[string]string{}, variant: variant, cfg: k2["a"], tcfg: taprootView(k2["a"]), signers: S, sid: sid, msg: msg}
+				rand.Reader = constReader{0x29}
+				o, err := c.commitments()
+				rand.Reader = saved
+				if err != nil {
+					break
+				}
+				outs = append(outs, o)
+			}
+			if len(outs) == 2 {
+				t.Obs("evaluations", 1)
+				t.Distinct("frost|%s|constant|signers=last-identifier-last-byte", variant)
+				if bytes.Equal(outs[0], outs[1]) {
+					t.Violation("frost|nonce-reuse|constant|signers-last-byte", "%s signing: signer sets {a,b,c} and {a,b,d} publish the same nonce commitments under a constant random source", variant)
+				}
+			}
+		}
+	}
 	for _, variant := range []string{"plain", "taproot"} {
 		for _, rd := range []struct {
 			name string
